@@ -5,6 +5,7 @@ func init() {
 		ID:    "C10",
 		Title: "String literals are HTML-escaped on output; raw() is the exact opt-out",
 		Rules: []string{
+			"R-LOOP: loops by cases — the output of every pass is in the result",
 			"R-OWN: each use of a component gets its own parsed program; slot bodies go into the program of their own use",
 			"R-OUTPUT: EvaluateString and Template.String return the String() of the evaluated object unchanged",
 			"R-LAYOUT (alias): ~ is expanded only in the name of @use / @component, to layouts/ and components/",
@@ -18,6 +19,7 @@ func init() {
 		NotDecided:  "TODO",
 		Assumptions: trustedBase,
 		Run: func(m *Model, s *Sink) {
+			m.RunLoop(s, "R-LOOP")                                       // what each pass of a loop prints reaches the output, nested loops included
 			m.RunOwn(s, "R-OWN")                                         // a literal in the slot body of one use is printed by that use: each use has its own parsed program
 			m.RunOutputUnchanged(s, "R-OUTPUT")                          // the finished text is returned as it was printed (no pass over it changes a literal's bytes)
 			m.RunLayout(s, "R-LAYOUT")                                   // the ~ shortcut applies to the names of @use and @component only: an ordinary literal that starts with ~ keeps its text
